@@ -66,6 +66,26 @@ ASSUME ~Sound("bypass")
 \* the bypass design accepts Q = P for every scalar
 ASSUME \A s \in Scalars : Accepts("bypass", s, [s1 |-> 0, s2 |-> 0, k |-> 0, q |-> 1])
 
+-----------------------------------------------------------------------------
+(* The same question for the hinted RESIDUE WITNESS of the pairing checks: instead of raising f to the final     *)
+(* exponent, the circuit asks the prover for w and a scaling factor s and checks  w^Q = f * s  (toy: the         *)
+(* multiplicative group of Z_F, "final exponentiation" x -> x^((F-1)/Q), s restricted by construction to the     *)
+(* elements the exponentiation kills, or zero).  Over the field the all-zero hint w = s = 0 satisfies the        *)
+(* equation for EVERY f; excluding w = 0 (an inverse is demanded) makes the check sound.                          *)
+Q == 3
+RECURSIVE Pow(_, _)
+Pow(x, n) == IF n = 0 THEN 1 ELSE (x * Pow(x, n - 1)) % F
+FinalExpIsOne(f) == Pow(f, (F - 1) \div Q) = 1
+Killed == {x \in 0..F-1 : x = 0 \/ Pow(x, (F - 1) \div Q) = 1}      \* what the scaling factor can be
+ResidueAccepts(design, f, w, sc) == /\ Pow(w, Q) = (f * sc) % F
+                                   /\ (design = "residueNonZero" => w # 0)
+ResidueSound(design) == \A f \in 1..F-1, w \in 0..F-1, sc \in Killed : ResidueAccepts(design, f, w, sc) => FinalExpIsOne(f)
+ASSUME (F - 1) % Q = 0
+ASSUME ~ResidueSound("residueFree")
+ASSUME \A f \in 1..F-1 : ResidueAccepts("residueFree", f, 0, 0)        \* the zero strategy
+ASSUME ResidueSound("residueNonZero")
+ASSUME \A f \in 1..F-1 : FinalExpIsOne(f) => \E w \in 1..F-1, sc \in Killed : ResidueAccepts("residueNonZero", f, w, sc)
+
 Designs == {"native", "modL", "bypass"}
 VARIABLES cur, done
 vars == <<cur, done>>
